@@ -133,7 +133,8 @@ Definition ref_variable (r : aref) : bool :=
 Definition path := list text.
 
 (* a template string together with the context paths FindContextRefsInTemplate finds in it *)
-Record tpl := { t_raw : text; t_paths : list path }.
+(* t_literal: the string contains no expression at all (excellent.HasExpressions is false): it evaluates to itself *)
+Record tpl := { t_raw : text; t_paths : list path; t_literal : bool }.
 
 (* an `engine:"evaluated"` field (string, []string or map[string]string: its values in order) with, when it is
    also `engine:"localized"`, the stored translations of (item uuid, field name) per language *)
@@ -158,10 +159,8 @@ Definition s_child := text_of_string "child".
 Definition s_globals := text_of_string "globals".
 Definition s_results := text_of_string "results".
 
-(* inspect/templates.go fieldRefPaths *)
-Definition field_ref_paths : list (list text) :=
-  [ [s_fields]; [s_contact; s_fields]; [s_parent; s_fields]; [s_parent; s_contact; s_fields];
-    [s_child; s_fields]; [s_child; s_contact; s_fields] ].
+(* inspect/templates.go fieldRefPaths — read from the source by the translator (gen/ActionResults.v) *)
+Definition field_ref_paths : list (list text) := map (map text_of_string) field_ref_paths_src.
 
 (* does [p] start with [possible] (case-insensitively) followed by exactly one more segment? -> that segment, lowered *)
 Fixpoint match_field_path (possible : list text) (p : path) : option text :=
@@ -203,10 +202,16 @@ Definition tpl_refs (t : tpl) : list aref := flat_map path_refs (t_paths t).
 
 (* what the reflection walk of flows/inspect sees of an action, in struct-field order *)
 Inductive item :=
-| IRef (r : aref)        (* an assets.Reference field, or one element of a slice of references *)
-| ITpl (f : tfield).     (* an `engine:"evaluated"` field; this includes the name_match / email_match member of a
-                            group, label or user reference (assets/group.go, label.go, user.go), which the walk
-                            reaches by descending into the reference: it follows its IRef *)
+| IRef (r : aref)        (* an assets.Reference field with an identity, or one such element of a slice of references *)
+| IVar (k : akind) (m : tpl)
+                         (* a group / label / user reference WITHOUT identity (Variable()): its name_match /
+                            email_match member (assets/group.go, label.go, user.go) is an `engine:"evaluated"` field
+                            which the walk reaches by descending into the reference; the reference itself is dropped
+                            by inspection.  At run time the evaluated match is looked up by name / email
+                            (actions/base.go resolveGroups, resolveLabels, resolveUser) *)
+| ITpl (f : tfield)      (* an `engine:"evaluated"` field *)
+| ILegacy (f : tfield).  (* otherContactsAction.legacy_vars: evaluated; a value that is not a contact uuid is looked
+                            up as a group name at run time (actions/base.go resolveRecipients) *)
 
 (* action types that save a result through baseAction.saveResult under their result_name *)
 Inductive saver := SvCallClassifier | SvCallResthook | SvCallWebhook | SvOpenTicket | SvTransferAirtime.
@@ -341,7 +346,11 @@ Definition waiting_exits (f : flow) : list N :=
 (* dependencies: flow.extract + inspect.NewDependencies *)
 
 Definition action_templates (a : action) : list tpl :=
-  flat_map (fun it => match it with ITpl f => tfield_templates f | IRef _ => [] end) (a_items a).
+  flat_map (fun it => match it with
+                      | ITpl f | ILegacy f => tfield_templates f
+                      | IVar _ m => [m]
+                      | IRef _ => []
+                      end) (a_items a).
 
 (* baseRouter.EnumerateTemplates: the templates of the wait, if it has any (random routers: only these);
    SwitchRouter.EnumerateTemplates: the operand, then the cases' arguments, then the base's *)
@@ -350,7 +359,7 @@ Definition router_templates (r : router) : list tpl :=
   ++ match rt_wait r with Some _ => rt_wait_tpls r | None => [] end.
 
 Definition action_refs (a : action) : list aref :=
-  flat_map (fun it => match it with IRef r => [r] | ITpl _ => [] end) (a_items a).
+  flat_map (fun it => match it with IRef r => [r] | _ => [] end) (a_items a).
 
 Definition group_ref (id : text) : aref := {| r_kind := KGroup; r_id := id |}.
 
@@ -538,10 +547,44 @@ Definition position_ok (A : list flow) (st : state) (f : flow) (o : ostep) : boo
          end
   end.
 
-Definition touched_ok (n : node) (l : list aref) : bool :=
-  forallb (fun r => ref_in r (node_asset_refs n)) l.
+(* ---- assets a node touches WITHOUT a fixed reference to them being written in it (hunt findings 2 and 3; none of
+   them is seen by inspection): the asset an expression-free name_match / email_match / legacy_vars value names, and
+   the topic "General" an open_ticket without topic falls back to (actions/open_ticket.go).  Which asset a name
+   denotes depends on the session assets: [names] is that table *)
+Record named := { nm_kind : akind; nm_name : text; nm_id : text }.
 
-Definition step_ok (A : list flow) (st : state) (o : ostep) : option state :=
+(* FindByName / Get: compared without regard to letter case *)
+Definition resolve (names : list named) (k : akind) (nm : text) : list aref :=
+  map (fun x => {| r_kind := k; r_id := nm_id x |})
+      (filter (fun x => N.eqb (akind_code (nm_kind x)) (akind_code k) && eq_fold (nm_name x) nm) names).
+
+Definition has_topic_item (a : action) : bool :=
+  existsb (fun it => match it with
+                     | IRef r => N.eqb (akind_code (r_kind r)) (akind_code KTopic)
+                     | _ => false
+                     end) (a_items a).
+
+Definition s_general := text_of_string "General".
+
+Definition action_implicit_refs (names : list named) (a : action) : list aref :=
+  flat_map (fun it => match it with
+                      | IVar k m => if t_literal m then resolve names k (t_raw m) else []
+                      | ILegacy f => flat_map (fun v => if t_literal v then resolve names KGroup (trim_space (t_raw v)) else [])
+                                              (tf_vals f)
+                      | _ => []
+                      end) (a_items a)
+  ++ match a_behav a with
+     | BSaver SvOpenTicket _ => if has_topic_item a then [] else resolve names KTopic s_general
+     | _ => []
+     end.
+
+Definition node_implicit_refs (names : list named) (n : node) : list aref :=
+  flat_map (action_implicit_refs names) (n_actions n).
+
+Definition touched_ok (names : list named) (n : node) (l : list aref) : bool :=
+  forallb (fun r => ref_in r (node_asset_refs n) || ref_in r (node_implicit_refs names n)) l.
+
+Definition step_ok (names : list named) (A : list flow) (st : state) (o : ostep) : option state :=
   match lookup_flow A (os_flow o) with
   | None => None
   | Some f =>
@@ -550,23 +593,23 @@ Definition step_ok (A : list flow) (st : state) (o : ostep) : option state :=
       | Some n =>
           if position_ok A st f o
              && match_saves (node_emitters n (os_exit o)) (os_saved o)
-             && touched_ok n (os_touched o)
+             && touched_ok names n (os_touched o)
              && exit_ok n o
           then Some ((os_run o, {| st_flow := os_flow o; st_last := os_node o; st_next := exit_dest n (os_exit o) |}) :: st)
           else None
       end
   end.
 
-Fixpoint accepts_from (A : list flow) (st : state) (tr : list ostep) : bool :=
+Fixpoint accepts_from (names : list named) (A : list flow) (st : state) (tr : list ostep) : bool :=
   match tr with
   | [] => true
-  | o :: rest => match step_ok A st o with
-                 | Some st' => accepts_from A st' rest
+  | o :: rest => match step_ok names A st o with
+                 | Some st' => accepts_from names A st' rest
                  | None => false
                  end
   end.
 
-Definition accepts (A : list flow) (tr : list ostep) : bool := accepts_from A [] tr.
+Definition accepts (names : list named) (A : list flow) (tr : list ostep) : bool := accepts_from names A [] tr.
 
 (* projections of an execution *)
 Definition saved_results (tr : list ostep) : list (N * (text * text)) :=
